@@ -104,6 +104,10 @@ def _make_wc_step(name, spec, world, plumpy):
             items = {}
             for key, aref in ret['items'].items():
                 items[key] = _resolve_aref(self, world, aref, plumpy)
+            if ret.get('cls') == 'ordered':
+                import collections
+
+                return collections.OrderedDict(items)  # any mapping of the dict family is a context assignment
             return plumpy.ToContext(**items)
         if ret['t'] == 'raise':
             exc = programs.ProgramError(ret.get('msg', 'boom'))
